@@ -714,17 +714,26 @@ class Model:
                 stored.add(n.name)
         return stored - params
 
-    def mtext(self, f: FuncInfo, node: ast.AST | None = None) -> str:
-        """Text of node (default: whole function) with every local variable replaced by `_L` (parameters are kept)."""
+    def mtext(self, f: FuncInfo, node: ast.AST | None = None, roles: dict[str, str] | None = None) -> str:
+        """Text of node (default: whole function) with every local variable replaced by `_L` (parameters are kept).
+        `roles` maps local names whose role was discovered structurally (loop variable, handler name ...) to a role label that
+        is kept distinct instead of being masked."""
         locs = self.local_names(f)
+        roles = roles or {}
         import copy as _copy
         n2 = _copy.deepcopy(node if node is not None else f.node)
         for x in ast.walk(n2):
-            if isinstance(x, ast.Name) and x.id in locs:
+            if isinstance(x, ast.Name) and x.id in roles:
+                x.id = roles[x.id]
+            elif isinstance(x, ast.Name) and x.id in locs:
                 x.id = "_L"
-            if isinstance(x, ast.ExceptHandler) and x.name in locs:
+            if isinstance(x, ast.ExceptHandler) and x.name in roles:
+                x.name = roles[x.name]
+            elif isinstance(x, ast.ExceptHandler) and x.name in locs:
                 x.name = "_L"
-            if isinstance(x, ast.MatchAs) and x.name in locs:
+            if isinstance(x, ast.MatchAs) and x.name in roles:
+                x.name = roles[x.name]
+            elif isinstance(x, ast.MatchAs) and x.name in locs:
                 x.name = "_L"
         return ast.unparse(n2)
 
@@ -735,6 +744,10 @@ class Model:
         mod = f.module
         a = f.node.args
         keep = {x.arg for x in a.posonlyargs + a.args + a.kwonlyargs} | {"self", "cls"} | self._BUILTINS
+        if a.vararg:
+            keep.add(a.vararg.arg)
+        if a.kwarg:
+            keep.add(a.kwarg.arg)
         keep |= set(mod.imports) | set(mod.classes) | set(mod.functions) | set(mod.assigns)
         for x in ast.walk(tree):
             if isinstance(x, ast.Name) and x.id not in keep:
